@@ -215,6 +215,10 @@ func Load(ls LoadSpec) (*Program, error) {
 	for fn := range all {
 		if o := fn.Origin(); o != nil && o != fn && len(fn.Blocks) > 0 {
 			p.insts[o] = append(p.insts[o], fn) // bodies are verified per instantiation (concrete types)
+			// methods of generic types are only reachable through their instantiations: index the origin here
+			if o.Pkg != nil && mine[o.Pkg] {
+				p.byKey[o.Pkg.Pkg.Path()+"|"+o.RelString(o.Pkg.Pkg)] = o
+			}
 			continue
 		}
 		if fn.Pkg == nil || !mine[fn.Pkg] || fn.Synthetic != "" && !strings.HasPrefix(fn.Synthetic, "package init") {
